@@ -1,1 +1,5 @@
-import CG.Model.TS
+import CG.Proofs.C17
+
+#print axioms CG.C17.summary_total
+#print axioms CG.C17.summary_nodes
+#print axioms CG.C17.summary_edges
